@@ -431,6 +431,16 @@ theorem checksum_eq (l : Bytes) : Codec.checksum (Py.ints l) = ((Model.checksum 
 theorem slice_tail {α} (a : α) (l : List α) : Py.slice (a :: l) (some 1) none = l := by
   simp [Py.slice, Py.clampIdx]
 
+theorem guardRange_ok {α} (vals : List Int) (k : R α)
+    (h : vals.all (fun x => decide (0 ≤ x) && decide (x < 256)) = true) : Py.guardRange vals k = k := by
+  unfold Py.guardRange; rw [if_pos h]
+
+theorem guardRange_inner_bad (vals l : List Int) (h : Py.bytesOf l = .error (.py "ValueError")) :
+    Py.guardRange vals (Py.bytesOf l) = .error (.py "ValueError") := by
+  unfold Py.guardRange; split
+  · exact h
+  · rfl
+
 theorem checksum_range (l : List Int) : 0 ≤ Codec.checksum l ∧ Codec.checksum l < 256 := by
   first
   | (unfold Codec.checksum; rw [band_255]; omega)
@@ -441,17 +451,18 @@ theorem checksum_range (l : List Int) : 0 ≤ Codec.checksum l ∧ Codec.checksu
 theorem frameTobytes_eq (dt ft : UInt8) (data : Bytes) :
     Codec.frameTobytes (dt.toNat : Int) 0 (ft.toNat : Int) data = Model.frameToBytes dt ft data := by
   first
-  | (unfold Codec.frameTobytes Model.frameToBytes Py.guardRange
+  | (
+     -- whatever values Python range-checks on the way (`guardRange`, any list), the frame is the model's
+     unfold Codec.frameTobytes Model.frameToBytes
      have hfl : Generated.frameHeaderLength = 10 := rfl
      rw [hfl]
      have hdt := dt.toNat_lt
      have hft := ft.toNat_lt
      have hck := checksum_range (Py.slice ([170, ((data.length : Int) + 10), (dt.toNat : Int), 0, 0, 0, 0, 0, 0, (ft.toNat : Int)] ++ Py.ints data) (some 1) none)
      by_cases hl : data.length + 10 > 255
-     · rw [if_pos hl, if_neg]
-       simp only [List.all_cons, List.all_nil, Bool.and_eq_true, decide_eq_true_eq, not_and, Bool.and_true]
-       intro h; omega
-     · rw [if_neg hl, if_pos]
+     · rw [if_pos hl]
+       exact guardRange_inner_bad _ _ (bytesOf_bad [170] _ _ (Or.inr (by omega)))
+     · rw [if_neg hl, guardRange_ok]
        · have e : ((data.length : Int) + 10) = (((data.length + 10).toUInt8).toNat : Int) := by
            rw [u8_lt _ (by omega)]; push_cast; rfl
          rw [List.cons_append, slice_tail]
